@@ -11,6 +11,16 @@ Spec == Init /\ [][Next]_case
 \* design-level checks over the whole case set
 NominalOnNpu == (case.axis = "nominal" /\ case.op \in InTable /\ case.op \notin Unmodelled) => Expect(case) = "NPU"
 PairsAreCpu == case.axis2 # "" => Expect(case) = "CPU"
+\* the option the report names lifts exactly the bullet that names it, for every case of every operator
+ForceOnlyLiftsWsym == LET on == [case EXCEPT !.force = TRUE]  offc == [case EXCEPT !.force = FALSE]
+                      IN /\ Failing(on) = Failing(offc) \ {"wsym"}
+                         /\ Undecided(on) = Undecided(offc)
+                         /\ (case.op \in InTable /\ "wsym" \notin Listed[case.op]) => Expect(on) = Expect(offc)
+\* options the report does not mention never change what it promises
+NeutralOptionsAreNeutral == \A o \in NeutralOpts \cup {""} : LET x == [case EXCEPT !.nopt = o] IN
+                               Expect(x) = Expect(case) /\ Failing(x) = Failing(case)
+\* an operator that may be eliminated as a no-op is never one that has to stay on the CPU for its shape alone
+NoOpIsIdentity == NoOp(case) => Ifm(case) = Ofm(case)
 WellFormed == /\ case.op \in K4 => (OH(case) >= 1 /\ OW(case) >= 1 /\ case.sh >= 1 /\ case.sw >= 1)
               /\ Expect(case) \in {"NPU", "CPU", "ANY"}
 Emit == PrintT(<<"CASE", ToJson([c |-> case, oh |-> IF case.op \in K4 THEN OH(case) ELSE 0,
